@@ -304,6 +304,155 @@ def _lower_for_each(F, f, raw, blk, t):
 
 
 
+def _lower_enum_eq(F, f, raw, blk, t):
+    """`state == Enum::Variant` on a payload-free crate enum (derived PartialEq) is a test of the discriminant: rewritten to a switch on
+    `discriminant(state)` that sets the bool, so that branch facts flow through it like through a `match`."""
+    nm = strip_generics(t.get("callee") or "")
+    if nm not in ("std::cmp::PartialEq::eq", "std::cmp::PartialEq::ne") or len(t["args"]) != 2 or t["to"] < 0:
+        return False
+    adt = (t.get("generics") or [""])[0]
+    a = F.adts.get(adt)
+    if not a or len(a["variants"]) < 2 or any(v["fields"] for v in a["variants"]):
+        return False
+
+    def single_def(l):
+        ds = [d for d in f.defs().get(l, []) if not f.is_cleanup(d[0]) and d[1] is not None and not d[2]["lhs"].get("p")]
+        return ds[0][2]["rv"] if len(ds) == 1 else None
+
+    def as_place(op):
+        """&x  ->  x"""
+        if op.get("k") not in ("cp", "mv") or op["pl"].get("p"):
+            return None
+        rv = single_def(op["pl"]["l"])
+        if rv and rv["r"] == "ref" and "*" not in rv["pl"].get("p", []):
+            return rv["pl"]
+        return None
+
+    def as_variant(op):
+        """&Enum::V (a promoted constant, or a reference to a local built as that variant)  ->  variant index"""
+        if op.get("k") not in ("cp", "mv") or op["pl"].get("p"):
+            return None
+        rv = single_def(op["pl"]["l"])
+        if not rv or rv["r"] != "ref":
+            return None
+        base = rv["pl"]["l"]
+        rv2 = single_def(base)
+        if rv2 is None:
+            return None
+        if rv2["r"] == "use" and rv2["a"][0].get("k") == "c" and "pv" in rv2["a"][0]:
+            return rv2["a"][0]["pv"]
+        if rv2["r"] == "agg" and rv2["kind"].get("adt") == adt:
+            return rv2["kind"].get("vi")
+        return None
+    P, vi = as_place(t["args"][0]), as_variant(t["args"][1])
+    if P is None or vi is None or as_variant(t["args"][0]) is not None:
+        P2, vi2 = as_place(t["args"][1]), as_variant(t["args"][0])
+        if P2 is not None and vi2 is not None:
+            P, vi = P2, vi2
+        elif P is None or vi is None:
+            return False
+    blocks, locals_ = raw["blocks"], raw["locals"]
+    locals_.append({"i": len(locals_), "t": "isize", "adt": ""})
+    dsc = len(locals_) - 1
+    ln, src = t.get("ln"), blk.get("src")
+    eq = nm.endswith("::eq")
+    T, Fb, S = len(blocks), len(blocks) + 1, len(blocks) + 2
+    for bi, val in ((T, eq), (Fb, not eq)):
+        blocks.append({"b": bi, "cleanup": False, "src": src,
+                       "st": [{"s": "assign", "lhs": copy.deepcopy(t["dest"]), "rv": {"r": "use", "a": [{"k": "c", "t": "bool", "v": 1 if val else 0, "s": "const %s" % str(val).lower()}]}, "ln": ln, "x": False}],
+                       "term": {"t": "goto", "to": t["to"], "ln": ln}})
+    blocks.append({"b": S, "cleanup": False, "src": src, "st": [{"s": "assign", "lhs": {"l": dsc}, "rv": {"r": "discr", "pl": copy.deepcopy(P), "adt": adt}, "ln": ln, "x": False}],
+                   "term": {"t": "switch", "on": {"k": "mv", "pl": {"l": dsc}}, "arms": [[vi, T]], "otherwise": Fb, "ln": ln, "lowered": "enum-eq"}})
+    blk["term"] = {"t": "goto", "to": S, "ln": ln, "lowered": "enum-eq"}
+    return True
+
+
+def _lower_map_next(F, f, raw, blk, t):
+    """`it.next()` where `it` is `base.map(closure)` with a new crate closure (a lazy adaptor built by a helper and consumed by a `for` loop here):
+    rewritten to `match base.next() { Some(x) => Some(closure(x)), None => None }`, so that the closure body runs where the loop is."""
+    if strip_generics(t.get("callee") or "") != "std::iter::Iterator::next" or len(t["args"]) != 1 or t["to"] < 0 or t.get("lowered"):
+        return False
+    if "std::iter::Map<" not in (t.get("resolved") or "") + " ".join(t.get("generics") or []):
+        return False
+    # back from the `&mut it` argument to the map() call
+    pl = t["args"][0].get("pl")
+    node = None
+    for _ in range(24):
+        if pl is None or [e for e in pl.get("p", []) if e != "*"]:
+            return False
+        ds = [d for d in f.defs().get(pl["l"], []) if not f.is_cleanup(d[0]) and not (d[1] is not None and d[2]["lhs"].get("p"))]
+        if len(ds) != 1:
+            return False
+        b0, si, nd = ds[0]
+        if si is None:
+            nm = strip_generics(nd.get("callee") or "")
+            if nm == "std::iter::Iterator::map" and len(nd["args"]) == 2:
+                node, map_block = nd, b0
+                break
+            if nm in ("std::iter::IntoIterator::into_iter",) and nd["args"] and nd["args"][0].get("pl") is not None:
+                pl = nd["args"][0]["pl"]
+                continue
+            return False
+        rv = nd["rv"]
+        if rv["r"] in ("ref", "raw"):
+            pl = rv["pl"]
+        elif rv["r"] in ("use", "cast") and rv["a"][0].get("pl") is not None:
+            pl = rv["a"][0]["pl"]
+        else:
+            return False
+    if node is None:
+        return False
+    c0 = _closure_of_local(F, f, node["args"][1])
+    if c0 is None or c0.path in inventory() or strip_generics(c0.path) in inventory() or node["args"][0]["k"] == "c" or node["args"][1]["k"] == "c":
+        return False
+    blocks, locals_ = raw["blocks"], raw["locals"]
+
+    def new_local(ty):
+        locals_.append({"i": len(locals_), "t": ty, "adt": ""})
+        return len(locals_) - 1
+    base = node["args"][0]
+    base_ty = f.local_ty(base["pl"]["l"])
+    item_ty = c0.local_ty(2)
+    out_ty = c0.local_ty(0)
+    ln = t.get("ln")
+    src = blk.get("src")
+    # the base iterator lives on in a local of its own, filled where map() is called
+    key = "mapbase@%d" % map_block
+    it = raw.setdefault("_lowered_map", {}).get(key)
+    if it is None:
+        it = new_local(base_ty)
+        raw["_lowered_map"][key] = it
+        mb = blocks[map_block]
+        mb["st"] = mb["st"] + [{"s": "assign", "lhs": {"l": it}, "rv": {"r": "use", "a": [copy.deepcopy(base)]}, "ln": ln, "x": False}]
+    opt = new_local("std::option::Option<%s>" % item_ty)
+    dsc = new_local("isize")
+    refit = new_local("&mut " + base_ty)
+    v = new_local(item_ty)
+    tup = new_local("(%s,)" % item_ty)
+    cref = new_local("&mut " + f.local_ty(node["args"][1]["pl"]["l"]))
+    res = new_local(out_ty)
+    A, SOME, NONE, UNR, WRAP = len(blocks), len(blocks) + 1, len(blocks) + 2, len(blocks) + 3, len(blocks) + 4
+    blocks.append({"b": A, "cleanup": False, "src": src, "st": [{"s": "assign", "lhs": {"l": dsc}, "rv": {"r": "discr", "pl": {"l": opt}, "adt": "std::option::Option"}, "ln": ln, "x": False}],
+                   "term": {"t": "switch", "on": {"k": "mv", "pl": {"l": dsc}}, "arms": [[0, NONE], [1, SOME]], "otherwise": UNR, "ln": ln}})
+    blocks.append({"b": SOME, "cleanup": False, "src": src,
+                   "st": [{"s": "assign", "lhs": {"l": v}, "rv": {"r": "use", "a": [{"k": "mv", "pl": {"l": opt, "p": [{"v": 1, "n": "Some"}, {"f": 0, "n": "0", "t": item_ty}]}}]}, "ln": ln, "x": False},
+                          {"s": "assign", "lhs": {"l": tup}, "rv": {"r": "agg", "kind": {"tuple": 1}, "a": [{"k": "mv", "pl": {"l": v}}]}, "ln": ln, "x": False},
+                          {"s": "assign", "lhs": {"l": cref}, "rv": {"r": "ref", "m": "Mut { kind: Default }", "pl": copy.deepcopy(node["args"][1]["pl"])}, "ln": ln, "x": False}],
+                   "term": {"t": "call", "callee": "std::ops::FnMut::call_mut", "resolved": "std::ops::FnMut::call_mut", "foreign": False, "local": False, "krate": "core", "resolved_local": False,
+                            "generics": [], "args": [{"k": "mv", "pl": {"l": cref}}, {"k": "mv", "pl": {"l": tup}}], "dest": {"l": res}, "to": WRAP, "unwind": "Continue", "ln": ln, "x": False, "lowered": "map-next"}})
+    blocks.append({"b": NONE, "cleanup": False, "src": src,
+                   "st": [{"s": "assign", "lhs": copy.deepcopy(t["dest"]), "rv": {"r": "agg", "kind": {"adt": "std::option::Option", "variant": "None", "vi": 0}, "a": []}, "ln": ln, "x": False}],
+                   "term": {"t": "goto", "to": t["to"], "ln": ln}})
+    blocks.append({"b": UNR, "cleanup": False, "src": src, "st": [], "term": {"t": "unreachable"}})
+    blocks.append({"b": WRAP, "cleanup": False, "src": src,
+                   "st": [{"s": "assign", "lhs": copy.deepcopy(t["dest"]), "rv": {"r": "agg", "kind": {"adt": "std::option::Option", "variant": "Some", "vi": 1}, "a": [{"k": "mv", "pl": {"l": res}}]}, "ln": ln, "x": False}],
+                   "term": {"t": "goto", "to": t["to"], "ln": ln}})
+    blk["st"] = blk["st"] + [{"s": "assign", "lhs": {"l": refit}, "rv": {"r": "ref", "m": "Mut { kind: Default }", "pl": {"l": it}}, "ln": ln, "x": False}]
+    blk["term"] = {"t": "call", "callee": "std::iter::Iterator::next", "resolved": "std::iter::Iterator::next", "foreign": False, "local": False, "krate": "core", "resolved_local": False,
+                   "generics": [base_ty], "args": [{"k": "mv", "pl": {"l": refit}}], "dest": {"l": opt}, "to": A, "unwind": "Continue", "ln": ln, "x": False, "lowered": "map-next"}
+    return True
+
+
 def _instantiate(graw, t, bind=None):
     """a generic helper is inlined at a concrete call: write the call's type arguments into the copied body (types of locals, the type
     arguments recorded at its own calls, drop types), so that `mem::take::<Vec<T>>` inside `SideTable<T>::take_all` reads `Vec<OsIpcChannel>`"""
@@ -382,6 +531,11 @@ def _lower_combinator(F, f, raw, blk, t):
     if spec is None or len(t["args"]) != 2 or t["to"] < 0 or t["dest"].get("p"):
         return False
     g = _closure_of_local(F, f, t["args"][1])
+    fn_item = False
+    if g is None and t["args"][1].get("k") == "c" and t["args"][1].get("fn"):
+        # `.map(Type::constructor)`: a function of this crate passed by name
+        g = F.fns.get(t["args"][1]["fn"]) or next((h for h in F.fns.values() if strip_generics(h.path) == strip_generics(t["args"][1]["fn"])), None)
+        fn_item = g is not None
     if g is None or g.path in inventory() or strip_generics(g.path) in inventory():
         return False
     x = t["args"][0]
@@ -446,9 +600,14 @@ def _lower_combinator(F, f, raw, blk, t):
             else:
                 after = exit_to
                 call_dest = dest
-            arm_blocks[vi] = new_block(st, {"t": "call", "callee": "std::ops::FnOnce::call_once", "resolved": "std::ops::FnOnce::call_once", "foreign": False, "local": False, "krate": "core",
-                                            "resolved_local": False, "generics": [], "args": [copy.deepcopy(t["args"][1]), {"k": "mv", "pl": {"l": tup}}], "dest": call_dest, "to": after,
-                                            "unwind": "Continue", "ln": ln, "x": False, "lowered": name})
+            if fn_item:
+                arm_blocks[vi] = new_block(st, {"t": "call", "callee": g.path, "resolved": g.path, "foreign": False, "local": True, "krate": "ipc_channel", "resolved_local": True,
+                                                "generics": [], "args": ([] if unit_call else [{"k": "mv", "pl": {"l": pv}}]), "dest": call_dest, "to": after,
+                                                "unwind": "Continue", "ln": ln, "x": False, "lowered": name})
+            else:
+                arm_blocks[vi] = new_block(st, {"t": "call", "callee": "std::ops::FnOnce::call_once", "resolved": "std::ops::FnOnce::call_once", "foreign": False, "local": False, "krate": "core",
+                                                "resolved_local": False, "generics": [], "args": [copy.deepcopy(t["args"][1]), {"k": "mv", "pl": {"l": tup}}], "dest": call_dest, "to": after,
+                                                "unwind": "Continue", "ln": ln, "x": False, "lowered": name})
     unr = new_block([], {"t": "unreachable"})
     blk["st"] = blk["st"] + [{"s": "assign", "lhs": {"l": scrut}, "rv": {"r": "use", "a": [copy.deepcopy(x)]}, "ln": ln, "x": False},
                              {"s": "assign", "lhs": {"l": dsc}, "rv": {"r": "discr", "pl": {"l": scrut}, "adt": enum_adt}, "ln": ln, "x": False}]
@@ -485,8 +644,11 @@ def callers_map(F):
     return cm
 
 
+_RET_ALIAS = None      # while one callee is being spliced in: the caller's local that receives its result (the callee's _0 is written there directly)
+
+
 def _remap_place(pl, lo):
-    out = {"l": pl["l"] + lo}
+    out = {"l": _RET_ALIAS if (pl["l"] == 0 and _RET_ALIAS is not None) else pl["l"] + lo}
     if pl.get("p"):
         p2 = []
         for e in pl["p"]:
@@ -546,7 +708,8 @@ def _remap_block(blk, lo, bo, ret_dest, ret_target, src):
         t["cond"] = _remap_op(t["cond"], lo)
         t["to"] = t["to"] + bo
     elif k == "return":
-        nb["st"].append({"s": "assign", "lhs": copy.deepcopy(ret_dest), "rv": {"r": "use", "a": [{"k": "mv", "pl": {"l": lo}}]}, "ln": t.get("ln"), "x": False, "inl_ret": True})
+        if _RET_ALIAS is None:
+            nb["st"].append({"s": "assign", "lhs": copy.deepcopy(ret_dest), "rv": {"r": "use", "a": [{"k": "mv", "pl": {"l": lo}}]}, "ln": t.get("ln"), "x": False, "inl_ret": True})
         if ret_target is not None and ret_target >= 0:
             t = {"t": "goto", "to": ret_target}
         else:
@@ -609,6 +772,13 @@ def inline_function(F, f, cm, done, depth=0):
             blk["st"] = blk["st"] + [{"s": "assign", "lhs": t["dest"], "rv": {"r": "use", "a": [{"k": "c", "t": t["generics"][0], "v": 0, "s": "const 0"}]}, "ln": t.get("ln"), "x": False}]
             blk["term"] = {"t": "goto", "to": t["to"], "ln": t.get("ln"), "folded": "Default::default"}
             continue
+        if strip_generics(t.get("callee") or "") in ("std::cmp::PartialEq::eq", "std::cmp::PartialEq::ne") and _lower_enum_eq(F, Fn(raw, F), raw, blk, t):
+            inlined.append("<lowered enum ==>")
+            continue
+        if strip_generics(t.get("callee") or "") == "std::iter::Iterator::next" and not t.get("lowered") and _lower_map_next(F, Fn(raw, F), raw, blk, t):
+            inlined.append("<lowered map().next()>")
+            i -= 1          # visit the rewritten block again: its successor blocks hold the closure call
+            continue
         if t.get("callee") and "for_each" in t["callee"] and _lower_for_each(F, Fn(raw, F), raw, blk, t):
             inlined.append("<lowered for_each>")
             continue
@@ -668,8 +838,15 @@ def inline_function(F, f, cm, done, depth=0):
         for k, v in graw["names"].items():
             names[str(int(k) + lo)] = "%s.%s" % (short, v)
         src = {"fn": g.path, "file": g.file}
-        for gb in graw["blocks"]:
-            blocks.append(_remap_block(gb, lo, bo, t["dest"], t["to"], src))
+        global _RET_ALIAS
+        # the helper writes its result straight into the caller's destination (for a tail call: into the caller's own return place), so
+        # "what does this function return on that path" reads the same with the helper spliced in
+        _RET_ALIAS = t["dest"]["l"] if not t["dest"].get("p") else None
+        try:
+            for gb in graw["blocks"]:
+                blocks.append(_remap_block(gb, lo, bo, t["dest"], t["to"], src))
+        finally:
+            _RET_ALIAS = None
         # bind parameters
         binds = []
         if mode == "call":
